@@ -30,6 +30,7 @@ def r4_r5(run, tree):
     run.rule("C03.R4", "large-cell limit and dependences of every pre-selection mask (zero-thickness mode; thick mode is C11)",
              "D5 limit + D4 dependence", "", floor=4)
     mr.check_preselection(run, tree, [mr.MODES[0]])
+    mf.check_mask_reach(run, tree)
 
 
 def r6(run, tree):
